@@ -154,6 +154,8 @@ func runPlans(w *out.W, tier, outDir string) {
 		}
 		variants(w, tmp, fmt.Sprintf("c%d", ci), s.d, p, classOf(s), fmt.Sprintf("indent=%q shape=%d %s", indent, s.shape, strings.Join(fs, " ")), ci, thorough, s, "")
 	}
+	// 2b. plans from inspected real SQLite databases (already-quoted defaults reach the planner)
+	runInspected(w, tmp, thorough)
 	// 3. synthetic plans, with adversarial comments
 	comments := []string{"", "plain comment", "é starts with a non-ASCII byte", "semi; colon -- and /* markers */ # x", "two\nlines", "quote ' \" ` \\", "atlas:delimiter //"}
 	for si, s := range synthPlans() {
